@@ -124,6 +124,13 @@ func (mdb *MassDBV1) prePlotWork(cache *MemCache) error {
 	logging.CPrint(logging.INFO, fmt.Sprintf("load checkpoint for HashMapA: %d/%d (%d/%d)", checkpoint, hmA.volume, checkpoint/logCheckpointInterval, 50),
 		logging.LogFormat{"bit_length": mdb.bl, "pub_key": hex.EncodeToString(mdb.pubKey.SerializeCompressed())})
 
+	// A finished window records startPoint+1 as its checkpoint. Resume from the even start of that window:
+	// windows have an even number of records, so from an odd start the last record of the volume could never
+	// be covered (zero-length last window, endless loop, checkpoint already set to volume).
+	if checkpoint < hmA.volume {
+		checkpoint -= checkpoint & 1
+	}
+
 	var ensureCacheMemory = func(startPoint pocutil.PoCValue) error {
 		return hmA.makeAvailableMemory(cache, uint64(hmA.volume-startPoint)*uint64(recordSize))
 	}
